@@ -392,7 +392,7 @@ impl Group for C13 {
          removal with an empty window), compact and streamed; each refusal is followed by further correct requests; \
          non-trivial = at least one accepted and one refused request"
     }
-    fn budget(&self, tier: Tier) -> usize { if tier == Tier::Quick { 150 } else { 2500 } }
+    fn budget(&self, tier: Tier) -> usize { if tier == Tier::Quick { 600 } else { 12000 } }
     fn model_line(&self, op: &str) -> Option<String> {
         Some(op.split(" | ").next().unwrap().trim_end().to_string())
     }
